@@ -59,38 +59,53 @@ where
         Ok(Header::read_content_offset(&self.file_path).await?)
     }
 
+    /// Replace the content of the vault file.
+    ///
+    /// The bytes are written to a temporary file which is then
+    /// renamed over the vault so that a reader, or a process
+    /// restarted after dying part way through, sees either the
+    /// old or the new content and never a truncated mixture.
+    async fn replace_content(&self, buffer: &[u8]) -> Result<(), E> {
+        let mut temp_path = self.file_path.clone().into_os_string();
+        temp_path.push(".tmp");
+        let temp_path = PathBuf::from(temp_path);
+
+        let mut temp = OpenOptions::new()
+            .create(true)
+            .write(true)
+            .truncate(true)
+            .open(&temp_path)
+            .await?;
+        temp.write_all(buffer).await?;
+        temp.flush().await?;
+        temp.sync_all().await?;
+        drop(temp);
+
+        vfs::rename(&temp_path, &self.file_path).await?;
+        Ok(())
+    }
+
     /// Write out the header preserving the existing content bytes.
     async fn write_header(
         &self,
         content_offset: u64,
         header: &Header,
     ) -> Result<(), E> {
-        let head = encode(header).await?;
-        let mut file = OpenOptions::new()
+        let mut buffer = encode(header).await?;
+
+        let file = OpenOptions::new()
             .read(true)
             .write(true)
             .open(&self.file_path)
             .await?;
-
-        // Read the content into memory
-        file.seek(SeekFrom::Start(content_offset)).await?;
-        let mut content = Vec::new();
-        file.read_to_end(&mut content).await?;
-
-        // Rewind and truncate the file
-        file.rewind().await?;
-        file.set_len(0).await?;
-
         let mut guard = file.lock_write().await.map_err(|e| e.error)?;
 
-        // Write out the header
-        guard.write_all(&head).await?;
+        // Read the content into memory
+        guard.seek(SeekFrom::Start(content_offset)).await?;
+        guard.read_to_end(&mut buffer).await?;
 
-        // Write out the content
-        guard.write_all(&content).await?;
-        guard.flush().await?;
-
-        Ok(())
+        // Write out the header followed by the content
+        self.replace_content(&buffer).await
     }
 
     /// Splice a file preserving the head and tail and
@@ -101,45 +116,32 @@ where
         tail: Range<u64>,
         content: Option<&[u8]>,
     ) -> Result<(), E> {
-        let end = {
-            let file =
-                OpenOptions::new().read(true).open(&self.file_path).await?;
-            let mut guard = file.lock_read().await.map_err(|e| e.error)?;
-
-            // Read the tail into memory
-            guard.seek(SeekFrom::Start(tail.start)).await?;
-            let mut end = Vec::new();
-            guard.read_to_end(&mut end).await?;
-
-            end
-        };
-
-        let file =
-            OpenOptions::new().write(true).open(&self.file_path).await?;
-
-        let mut guard = file.lock_write().await.map_err(|e| e.error)?;
-
-        if head.start == 0 {
-            // Rewind and truncate the file to the head
-            guard.rewind().await?;
-            guard.inner_mut().set_len(head.end).await?;
-        } else {
+        if head.start != 0 {
             unreachable!("file splice head range always starts at zero");
         }
 
-        // Must seek to the end before writing out the content or tail
-        guard.seek(SeekFrom::End(0)).await?;
+        let file = OpenOptions::new()
+            .read(true)
+            .write(true)
+            .open(&self.file_path)
+            .await?;
+        let mut guard = file.lock_write().await.map_err(|e| e.error)?;
+
+        // Read the head into memory
+        let mut buffer = vec![0u8; head.end as usize];
+        guard.rewind().await?;
+        guard.read_exact(&mut buffer).await?;
 
         // Inject the content if necessary
         if let Some(content) = content {
-            guard.write_all(content).await?;
+            buffer.extend_from_slice(content);
         }
 
-        // Write out the end portion
-        guard.write_all(&end).await?;
-        guard.flush().await?;
+        // Read the tail into memory
+        guard.seek(SeekFrom::Start(tail.start)).await?;
+        guard.read_to_end(&mut buffer).await?;
 
-        Ok(())
+        self.replace_content(&buffer).await
     }
 
     /// Find the byte offset of a row.
